@@ -169,6 +169,15 @@ def run(res):
     if control_bad:
         raise vlib.CheckError("control programs with a single `..` do not compile: the e2e harness is broken: %s" % control_bad[:1])
 
+    res.coverage.update({
+        "evaluations": len(recs) + len(progs),
+        "distinct_nontrivial": sum(d["cases"] for d in by_class.values()) + sum(1 for r in recs if r.origin.startswith(("corrupt", "truncation", "random"))),
+        "rule": "the front-end corpus (see C13) with, in particular, every malformation the property names (11 classes, each fragment bare and embedded at a "
+                "random position of random patterns of depth 1-3) which must all be rejected, and every single-token corruption / truncation / random stream, "
+                "on which an accepted outcome must account for every identifier and literal token of the input; plus %d programs with more than one `..` in a "
+                "slice pattern under rustc; non-trivial = malformed-by-construction cases and corrupted streams" % len(SLICE_PROGRAMS),
+        "samples": [{"invocation": r.text, "class": r.cls, "outcome": r.real_status, "error_at": r.real_pos} for r in [x for x in recs if x.cls][::max(1, len([x for x in recs if x.cls]) // 5)][:5]],
+    })
     if dis:
         if not failing:
             r, why = dis[0]
